@@ -14,6 +14,10 @@ import Hdc.Gen.GlueZonalMean
 import Hdc.Gen.GlueMeanGrp
 import Hdc.Gen.GlueAnomalies
 import Hdc.Gen.GluePeriod
+import Hdc.Gen.GlueIteragg
+import Hdc.Gen.GlueLinspace
+import Hdc.Gen.GlueCalIndices
+import Hdc.Gen.GlueSpi
 /-
 Line-protocol driver `hdc-driver-acc`: DIFFERENTIAL VALIDATION of the glue translators (harness/py2lean_glue*.py).
 Every GENERATED accessor program (Hdc/Gen/Glue*.lean) is run with its library parameters instantiated by RECORDING STUBS:
@@ -39,6 +43,11 @@ of a number the programs need is its Python truth value, `tokNonzero`).  One req
   anom <ratio|diff> <dflt|offset-token>
   period <idx|midx|yidx|ndays|label|raw|linspace|start_date|end_date> <y-m-d,y-m-d,..>   (DekadPeriod, real semantics of the generated Dekad class)
   tbinit <is_datetime64> <has_time_attr> <time_in_dims>     AccessorTimeBase.__init__
+  iteragg <func_given> <has_dim> <dim_is_time> <axis:[lbl,..]> <n|none> <begin|none> <end|none>   (labels are opaque tokens; get_indexer = position on the axis or -1)
+  linspace <int|str> <labels:[..]>
+  calidx <time:[..]> <begin> <end>                 calidxg <time:[..]> <begin> <end> <groups:[..]> <num_groups|none>
+  spi <td> <time:[..]> <cal_begin|none> <cal_end|none> <nodata-arg> <nodata-attr>
+  spig <td> <time:[..]> <cal_begin|none> <cal_end|none> <nodata-arg> <nodata-attr> <groups:[str,..]>
 -/
 open Hdc Hdc.PyGlue Hdc.PyXr Hdc.Gen.Glue
 
@@ -155,6 +164,49 @@ def pyErr {α : Type} (f : α → String) (e : Except Py.PyErr (List α)) : Stri
   match e with
   | .ok xs => "ok " ++ showL (xs.map f)
   | .error k => s!"exc {repr k}"
+
+
+/-! ### the four older glue programs (iteragg, to_linspace, get_calibration_indices, spi) -/
+
+def parseSL (t : String) : Option (List String) :=
+  if t.startsWith "[" && t.endsWith "]" then
+    let inner := ((t.drop 1).dropEnd 1).toString
+    if inner = "" then some [] else some (inner.splitOn ",")
+  else none
+
+def parseOI (t : String) : Option (Option Int) :=
+  if t = "none" then some none else t.toInt?.map some
+
+/-- `_index.get_indexer([lbl])[0]` with `method=None` on a unique axis: the position or -1 -/
+def posOf (axis : List String) (t : String) : Int :=
+  match axis.findIdx? (· = t) with
+  | some i => (i : Int)
+  | none => -1
+
+/-- `str(_index[i])` (display only; Python's negative indices wrap) -/
+def lblAt (axis : List String) (i : Int) : String :=
+  match getItem axis i with
+  | .ok s => s
+  | .error _ => "IndexError"
+
+def showILL (t : List (List Int)) : String := showL (t.map showIL)
+
+/-- `ndarray.searchsorted(v, side)` on an ascending integer array -/
+def ssorted (x : List Int) (v : Int) (side : String) : Except Exc Int :=
+  if side = "left" then .ok (Hdc.Py.searchLeft x v : Nat)
+  else if side = "right" then .ok (Hdc.Py.searchRight x v : Nat)
+  else .error .valueError
+
+def arrInt16 (t : List (List Int)) : Except Exc (List (List Int)) :=
+  if t.all (fun r => r.all fun v => decide (-32768 ≤ v ∧ v ≤ 32767)) then .ok t else .error .overflowError
+
+def uniqLen (g : List Int) : Int := ((Hdc.Py.unique g).length : Int)
+
+def linspaceOf {L : Type} [LT L] [DecidableLT L] [DecidableEq L] (x : List L) : Except Exc ((List Int) × (List L)) :=
+  to_linspace (fun keys v => v.map fun e => ((Hdc.Py.searchLeft keys e : Nat) : Int)) x
+
+def spiKw : String :=
+  "dask=parallelized,dask_gufunc_kwargs={meta:obj.astype(int16).data}"
 
 def step (line : String) : String :=
   let toks := (line.trimAscii.toString.splitOn " ").filter (· ≠ "")
@@ -286,6 +338,59 @@ def step (line : String) : String :=
   | ["tbinit", dt, ht, td] => do
     let dt ← parseB dt; let ht ← parseB ht; let td ← parseB td
     pure <| reply (timebase_init (Obj := String) (fun _ => dt) (fun _ => ht) (fun _ => td) (fun o => s!"expand_dims({o},time)") "obj")
+  | ["iteragg", func, hasdim, istime, axis, n, b, e] => do
+    let func ← parseB func; let hasdim ← parseB hasdim; let istime ← parseB istime
+    let axis ← parseSL axis
+    let n ← parseOI n
+    pure <| reply ((iteragg (Lbl := String) (Obj := String)
+      hasdim (len axis)
+      (fun l => match l with
+        | some t => .ok (posOf axis t)
+        | none => .error .typeError)
+      (len axis)
+      (fun a b => s!"{a}:{b}")
+      (fun r a b => s!"sel({r};{lblAt axis a};{lblAt axis (b - 1)};{len (slice axis (some a) (some b))})")
+      func (fun o => s!"reduce({o})") istime (fun o b => s!"expand({o},{lblAt axis (b - 1)})")
+      n (optTok b) (optTok e)).map showL)
+  | ["linspace", kind, labels] =>
+    if kind = "int" then do
+      let xs ← parseIL labels
+      pure <| reply ((linspaceOf xs).map fun (a, k) => s!"{showIL a}|{showIL k}")
+    else if kind = "str" then do
+      let xs ← parseSL labels
+      pure <| reply ((linspaceOf xs).map fun (a, k) => s!"{showIL a}|{showL k}")
+    else none
+  | ["calidx", time, b, e] => do
+    let time ← parseIL time; let b ← b.toInt?; let e ← e.toInt?
+    pure <| reply ((get_calibration_indices (D := Int) id ssorted time (b, e) none).map fun (a, z) => s!"({a},{z})")
+  | ["calidxg", time, b, e, groups, ng] => do
+    let time ← parseIL time; let b ← b.toInt?; let e ← e.toInt?
+    let groups ← parseIL groups
+    let ng ← parseOI ng
+    pure <| reply ((get_calibration_indices_grp (D := Int) id ssorted uniqLen arrInt16 time (b, e) groups ng).map showILL)
+  | ["spi", td, time, cb, ce, nda, ndattr] => do
+    let td ← parseB td
+    let time ← parseIL time
+    let cb ← parseOI cb; let ce ← parseOI ce
+    pure <| reply (spi (V := String) (Res := String)
+      td (optTok ndattr) time (fun o => o.getD 0) ssorted
+      (fun nd a b => s!"gammastd_yxt(obj)|{spiKw},input_core_dims=[[time]],keep_attrs=True,kwargs=" ++ "{" ++ s!"cal_start:{a},cal_stop:{b},nodata:{showOpt nd}" ++ "}" ++ ",output_core_dims=[[time]]")
+      (fun r a b => s!"{r};spi_calibration_begin={a};spi_calibration_end={b}")
+      cb ce (optTok nda))
+  | ["spig", td, time, cb, ce, nda, ndattr, groups] => do
+    let td ← parseB td
+    let time ← parseIL time
+    let cb ← parseOI cb; let ce ← parseOI ce
+    let groups ← parseSL groups
+    pure <| reply (spi_grp (V := String) (Grp := List String) (Key := String) (Res := String)
+      td (optTok ndattr) time
+      (fun g => match linspaceOf g with
+        | .ok r => r
+        | .error _ => ([], []))
+      (len time) id (fun o => o.getD 0) ssorted uniqLen arrInt16
+      (fun g k nd c => s!"gammastd_grp(obj,{showIL g},{k},{showOpt nd},{showILL c})|{spiKw},input_core_dims=[[time],[grps],[],[],[start,stop]],keep_attrs=True,output_core_dims=[[time]]")
+      (fun r a b => s!"{r};spi_calibration_begin={a};spi_calibration_end={b}")
+      cb ce (optTok nda) groups)
   | ["anom", "ratio", off] =>
     if off = "dflt" then pure ("ok " ++ (anomalies_ratio_default (α := E) ⟨"obj"⟩ ⟨"ref"⟩).s)
     else pure ("ok " ++ (anomalies_ratio (α := E) ⟨"obj"⟩ ⟨"ref"⟩ ⟨off⟩).s)
